@@ -41,7 +41,7 @@ func strFromIndex(idx int64, alphabet []string, n int) string {
 }
 
 func runC11(e *Env) {
-	e.Rule = "(a) totality + (b) reflexivity: ALL strings up to length 5 (quick) / 7 (thorough) over {'/',' ','.','a','b','\\t'} as registered path, group prefix (top level and nested inside another group) and request path (GET and HEAD), both StrictLastSlash settings: GET/Group/Match/ServeHTTP never panic and a static route registered as P is found by a request for the very same P; (c) equivalence on the unambiguous sub-language ws* '/'* core '/'* ws*: sampled pairs (P,Q) incl. group prefixes: route(P) is reached by Q iff N(P)==N(Q), Route.Path()==N(P), strict mode distinguishes '/a' from '/a/'; (d) path source: request targets with %41/%2F/%20 escapes parsed like a server does, routes registered under the decoded and under the escaped spelling + a dynamic route: default router matches URL.Path, UseEncodedPath matches URL.EscapedPath(). Non-trivial: string with white space or repeated/trailing slashes or an escape; distinct by string (pair). Non-ASCII white space is part of the alphabet; a Controller registered under a prefix yields the same route path as a Group under that prefix (both strict settings); for strings outside the documented sub-language the two entry points must still agree (Match reaches the route iff ServeHTTP does, also for the stored path itself)."
+	e.Rule = "(a) totality + (b) reflexivity: ALL strings up to length 5 (quick) / 7 (thorough) over {'/',' ','.','a','b','\\t'} as registered path, group prefix (top level and nested inside another group) and request path (GET and HEAD), both StrictLastSlash settings: GET/Group/Match/ServeHTTP never panic and a static route registered as P is found by a request for the very same P; (c) equivalence on the unambiguous sub-language ws* '/'* core '/'* ws*: sampled pairs (P,Q) incl. group prefixes: route(P) is reached by Q iff N(P)==N(Q), Route.Path()==N(P), strict mode distinguishes '/a' from '/a/'; (d) path source: request targets with %41/%2F/%20 escapes parsed like a server does, routes registered under the decoded and under the escaped spelling + a dynamic route: default router matches URL.Path, UseEncodedPath matches URL.EscapedPath() (in a third of the cases only the decoded spelling is registered: the escaped request then finds no static route). Non-trivial: string with white space or repeated/trailing slashes or an escape; distinct by string (pair). Non-ASCII white space is part of the alphabet; a Controller registered under a prefix yields the same route path as a Group under that prefix (both strict settings); for strings outside the documented sub-language the two entry points must still agree (Match reaches the route iff ServeHTTP does, also for the stored path itself)."
 	e.Assumptions = []string{
 		"strings where white space touches the stripped slashes (e.g. 'a /') are only checked for totality and reflexivity: the documented rule does not fix their normal form",
 		"only ASCII white space is generated",
@@ -344,11 +344,12 @@ func runC11(e *Env) {
 		if strings.ContainsAny(nd+ne, "{}[]") {
 			return
 		}
+		onlyDecoded := chance(r, 1, 3) // only the decoded spelling is registered: with UseEncodedPath a request whose escaped spelling differs finds nothing
 		for _, encoded := range []bool{false, true} {
 			router := rux.New(c11Opts(strict, encoded)...)
 			if pv, panicked := catch(func() {
 				router.GET(nd, namedHandler("decoded-spelling"))
-				if ne != nd {
+				if ne != nd && !onlyDecoded {
 					router.GET(ne, namedHandler("escaped-spelling"))
 				}
 				router.GET("/d/{v}", namedHandler("dyn"))
@@ -371,6 +372,12 @@ func runC11(e *Env) {
 			want := "decoded-spelling"
 			if encoded && ne != nd {
 				want = "escaped-spelling"
+				if onlyDecoded {
+					want = "" // no route is registered under the escaped spelling (unless it matches /d/{v})
+					if strings.HasPrefix(ne, "/d/") && !strings.Contains(strings.TrimPrefix(ne, "/d/"), "/") {
+						want = "dyn"
+					}
+				}
 			}
 			t.Count("pathsource.checked", 1)
 			if ne != nd {
